@@ -189,12 +189,11 @@ func (c19) Plan(tier string) []fw.Unit {
 	var us []fw.Unit
 	for i, sc := range scs {
 		cfg := sc.Params.(c19Cfg)
-		bound := 2
-		if tier == "quick" && cfg.Producers == 3 {
-			bound = 1
-		}
-		if tier == "thorough" && cfg.Strategy == "expand" && cfg.Producers == 2 {
-			bound = 3
+		// measured sizes (HB-cached executions): p1 bound 2: 42k total; p2 bound 1: 85k total;
+		// p2 bound 2: ~700k per scenario; p3 bound 1: >4M total
+		bound := map[int]int{1: 2, 2: 1, 3: 0}[cfg.Producers]
+		if tier == "thorough" {
+			bound = map[int]int{1: 3, 2: 2, 3: 1}[cfg.Producers]
 		}
 		if only := os.Getenv("VERIF_ONLY"); only != "" && !strings.Contains(sc.Name, only) {
 			continue
@@ -216,7 +215,7 @@ func (c19) Describe(tier string) fw.Description {
 		Rule: "stateless DFS over all schedules (thread choices at sync/atomic/channel points of stream+root packages, early timer firings, select-case choices) " +
 			"with at most `bound` deviations, of closed harnesses: P producers x 2 rows -> real Stream (SELECT id FROM stream) with data buffer 1|2 under drop / block / block+1ms / expand(ceiling 2|3); " +
 			"each execution is one state (DFS node); non-trivial = reached through >=1 deviation from the default schedule; oracle at quiescence: processed+input_dropped==emits, ids distinct, block never drops, cap<=ceiling, per-producer order",
-		Bounds: map[string]any{"producers": "1..3", "rows_per_producer": 2, "buffer": "1,2", "deviations": "2 (quick: 1 for 3 producers; thorough: 3 for 2-producer expand)", "forced_switch_cost": 0},
+		Bounds: map[string]any{"producers": "1..3", "rows_per_producer": 2, "buffer": "1,2", "deviations": "quick: 2/1/0 for 1/2/3 producers; thorough: 3/2/1 (time-capped)", "forced_switch_cost": 0},
 		Assumptions: []string{
 			"scheduling points only at sync, sync/atomic, channel and timer operations: unsynchronised accesses are invisible here (covered by the separate -race pass)",
 			"virtual clock: timers fire only when chosen; wall-clock durations are not modelled",
